@@ -122,3 +122,23 @@ def body_raises(repo: Repo, m: ModuleInfo, body: list[ast.stmt]) -> str | None:
             continue
         break
     return None
+
+
+def hypothetical_subclass(repo: Repo, ci: ClassInfo) -> ClassInfo:
+    """A user-defined subclass of `ci` that the repository does not know: exact-type dispatch must not match it."""
+    sub = ClassInfo(ci.qual + "<user subclass>", ci.name + "Subclass", ci.node, ci.module, bases=[ci])
+    sub._mro = [sub] + list(repo.mro(ci))
+    return sub
+
+
+def unknown_subclasses_rejected(repo: Repo, m: ModuleInfo, chain: list[Arm], concrete: list[ClassInfo]) -> list[tuple[str, str]]:
+    """[(class name, what happens)] for hypothetical subclasses that do NOT reach `raise NotImplementedError`."""
+    bad = []
+    for ci in concrete:
+        sub = hypothetical_subclass(repo, ci)
+        arm = first_match(repo, chain, sub)
+        if arm is None:
+            bad.append((sub.name, "falls off the chain"))
+        elif body_raises(repo, m, arm.body) != "NotImplementedError":
+            bad.append((sub.name, f"taken by arm `{ast.unparse(arm.test) if arm.test is not None else 'else'}`"))
+    return bad
